@@ -314,7 +314,7 @@ def pick_tol(kolds):
 
 
 def build_cases(tier):
-    nseeds = {"quick": 2, "thorough": 8}[tier]
+    nseeds = {"quick": 2, "thorough": 6}[tier]
     cases, lsq = [], []
     cid, kid = 0, 500000
     for cplx in (False, True):
